@@ -14,7 +14,12 @@
                   directly under the root is named like a marker.
    Since /repo ca4e69e the exclusion test is by whole components; the former guard `aligned`
    and C18_prefix_sibling_refuted are gone (witness kept in corpus/C18/prefix-sibling.json and
-   as Example prefix_sibling_kept: excl2 is offered). *)
+   as Example prefix_sibling_kept: excl2 is offered).  With the repairs of C18-exit-hang and
+   C18-root-marker-dirs-order the guards of the schedule and order theorems are gone as well
+   (C18_exit_hang_refuted, C18_root_marker_dirs_order_refuted deleted; their witnesses stay in
+   corpus/C18 and must now pass).  What remains _partial is exactness against the statement:
+   marker-named directories directly under the root are never entered
+   (C18_root_marker_dir_lost_refuted, known finding C18-root-marker-dir-not-entered). *)
 From Coq Require Import List String Bool Sorting.Permutation.
 From RC Require Import lib.PyStr gen.C18Consts model.DiscoverC18 proofs.DiscoverC18P.
 Import ListNotations.
@@ -83,14 +88,15 @@ Theorem C18_root_always_eligible :
 Proof. exact root_always_eligible. Qed.
 Print Assumptions C18_root_always_eligible.
 
-(* two listings of the same tree (same names at every level, any order) give the same set *)
-Theorem C18_discover_order_free_partial :
+(* two listings of the same tree (same names at every level, any order) give the same set --
+   for ALL trees (the repair of C18-root-marker-dirs-order removed the guard) *)
+Theorem C18_discover_order_free :
   forall ecs user bc t t' p,
-  wf t -> wf t' -> same_tree t t' -> root_guard ecs (all_markers user) bc t = true ->
+  wf t -> wf t' -> same_tree t t' ->
   (In p (walk_paths (render bc) t (map render ecs) user) <->
    In p (walk_paths (render bc) t' (map render ecs) user)).
-Proof. exact discover_order_free_partial. Qed.
-Print Assumptions C18_discover_order_free_partial.
+Proof. exact discover_order_free. Qed.
+Print Assumptions C18_discover_order_free.
 
 (* permuting the files and sub-directories of a directory is such a listing *)
 Theorem C18_perm_same_tree :
@@ -102,43 +108,36 @@ Print Assumptions C18_perm_same_tree.
 
 (* listings related by permutations of files / sub-directories at ANY depth (tperm: reflexive,
    transitive, permutation here, permutation below) give the same set *)
-Theorem C18_discover_perm_free_partial :
+Theorem C18_discover_perm_free :
   forall ecs user bc t t' p,
-  wf t -> tperm t t' -> root_guard ecs (all_markers user) bc t = true ->
+  wf t -> tperm t t' ->
   (In p (walk_paths (render bc) t (map render ecs) user) <->
    In p (walk_paths (render bc) t' (map render ecs) user)).
-Proof. exact discover_perm_free_partial. Qed.
-Print Assumptions C18_discover_perm_free_partial.
-
-(* outside `root_guard`: two marker directories in the root, the result follows the order *)
-Theorem C18_root_marker_dirs_order_refuted :
-  exists user bc t t' p,
-    wf t /\ wf t' /\ same_tree t t' /\
-    In p (walk_paths (render bc) t (map render []) user) /\
-    ~ In p (walk_paths (render bc) t' (map render []) user).
-Proof. exact root_marker_dirs_order_refuted. Qed.
-Print Assumptions C18_root_marker_dirs_order_refuted.
+Proof. exact discover_perm_free. Qed.
+Print Assumptions C18_discover_perm_free.
 
 (* any execution order sigma of the workers and any delivery order tau of their results,
    threaded or not: raises iff the sequential constructor raises, otherwise offers the same
-   directories equally often -- unless a first-pass analysis dies with a BaseException *)
-Theorem C18_schedule_free_partial :
+   directories equally often -- for ALL analysis outcomes (the repair of C18-exit-hang removed
+   the guard) *)
+Theorem C18_schedule_free :
   forall analyse ds sigma tau threaded,
   Permutation sigma ds -> Permutation tau ds ->
-  (forall e, In e ds -> deferred e = false -> analyse (fst e) <> AExit) ->
   match sequential analyse ds, collect analyse threaded sigma tau with
   | Offered a, Offered b => Permutation a b
   | Raised, Raised => True
   | _, _ => False
   end.
 Proof. exact schedule_free. Qed.
-Print Assumptions C18_schedule_free_partial.
+Print Assumptions C18_schedule_free.
 
-(* outside that guard: SystemExit in a pool worker -- sequential raises, threaded hangs *)
-Theorem C18_exit_hang_refuted :
-  exists analyse ds, sequential analyse ds = Raised /\ collect analyse true ds ds = Hangs.
-Proof. exact exit_hang_refuted. Qed.
-Print Assumptions C18_exit_hang_refuted.
+(* a project whose analysis ends in SystemExit is just a project that fails to analyse *)
+Theorem C18_exit_is_failed_project :
+  forall analyse threaded sigma tau,
+  collect analyse threaded sigma tau =
+  collect (fun p => match analyse p with AExit => AFail | o => o end) threaded sigma tau.
+Proof. exact exit_is_failed_project. Qed.
+Print Assumptions C18_exit_is_failed_project.
 
 (* the whole observation: get_candidates(None) offers exactly the project roots whose
    analysis succeeds (projects that fail to analyse disturb nothing else) *)
@@ -155,6 +154,6 @@ Print Assumptions C18_offered_exact_partial.
 (* the constructor raises iff some walked project's analysis raises *)
 Theorem C18_sequential_raises :
   forall analyse ds, sequential analyse ds = Raised <->
-  exists e, In e ds /\ (is_crash analyse e || is_exit analyse e) = true.
+  exists e, In e ds /\ is_crash analyse e = true.
 Proof. exact sequential_raises. Qed.
 Print Assumptions C18_sequential_raises.
